@@ -587,6 +587,12 @@ HELPER_ARGS = {
     "name": "n", "arguments": {}, "uri": "file:///x",
     "messages": [{"role": "user", "content": {"type": "text", "text": "hi"}}], "max_tokens": 10,
 }
+# optional arguments, for the runs in which EVERY parameter of a helper is given (the follow-up page of a listing, a
+# prompt with arguments, a sampling request with all its preferences)
+HELPER_OPT_ARGS = {
+    "cursor": "page-2", "arguments": {"a": 1}, "model_preferences": {"hints": [{"name": "m"}]}, "system_prompt": "s",
+    "include_context": "none", "temperature": 0.5, "stop_sequences": ["x"], "metadata": {"k": "v"},
+}
 HELPER_RESULTS = {
     "send_completion_complete": {"completion": {"values": []}}, "send_logging_set_level": {}, "send_ping": {},
     "send_prompts_get": {"messages": []}, "send_prompts_list": {"prompts": []}, "send_resources_list": {"resources": []},
@@ -616,7 +622,7 @@ def discover_helpers():
     return found
 
 
-async def _helper_run(fn, name, script, timeout_ticks):
+async def _helper_run(fn, name, script, timeout_ticks, full=False):
     """script: list of ("other-res",) ("same-req",) ("notif",) ("batch",) ("err", code, data) ("res",) ("silence",)"""
     import importlib
     import inspect
@@ -633,6 +639,8 @@ async def _helper_run(fn, name, script, timeout_ticks):
             if p.name not in HELPER_ARGS:
                 return {"out": ("skip", f"no argument recipe for {p.name}")}
             kwargs[p.name] = HELPER_ARGS[p.name]
+        elif full and p.name in HELPER_OPT_ARGS:
+            kwargs[p.name] = HELPER_OPT_ARGS[p.name]
     if "timeout" in sig.parameters:
         kwargs["timeout"] = timeout_ticks * TICK
     seen = {}
@@ -683,10 +691,15 @@ async def _helper_run(fn, name, script, timeout_ticks):
     return out
 
 
-def run_helper(fn, name, script, timeout_ticks=300):
+def helper_has_options(fn):
+    import inspect
+    return any(p.name in HELPER_OPT_ARGS and p.default is not inspect._empty for p in inspect.signature(fn).parameters.values())
+
+
+def run_helper(fn, name, script, timeout_ticks=300, full=False):
     orig = uuid.uuid4
     uuid.uuid4 = _Uuid()
     try:
-        return vrun(_helper_run, fn, name, script, timeout_ticks)
+        return vrun(_helper_run, fn, name, script, timeout_ticks, full)
     finally:
         uuid.uuid4 = orig
